@@ -276,6 +276,8 @@ def run(prop_cls, tier, seed, replay=None):
 
     # 2. build proofs + driver
     theorems = lean.theorems_of(prop.PROPS_FILE) if prop.PROPS_FILE else []
+    for extra in getattr(prop, "EXTRA_PROPS_FILES", []):
+        theorems += lean.theorems_of(extra)
     bok, bout, bsec = lean.lake(prop.MODULE, "driver")
     log(f"lake build {prop.MODULE} driver: ok={bok} {bsec:.1f}s")
     discharged = 0
@@ -285,7 +287,7 @@ def run(prop_cls, tier, seed, replay=None):
         files = sorted(set(re.findall(r"(PintModel/[\w/]+\.lean):\d+", bout)))
         breaks.append(("BROKEN-PROOF", ",".join(files) or "lake build", "\n".join(failing)[:3000]))
     else:
-        hits = lean.forbidden_hits([prop.PROPS_FILE] + list(prop.EXTRA_LEAN_FILES))
+        hits = lean.forbidden_hits([prop.PROPS_FILE] + list(prop.EXTRA_LEAN_FILES) + list(getattr(prop, "EXTRA_PROPS_FILES", [])))
         if hits:
             breaks.append(("BROKEN-PROOF", "forbidden-construct", "; ".join(hits)))
         res, aout = lean.audit(pid, prop.MODULE, theorems)
